@@ -27,3 +27,6 @@ func Choice(name string, natural, allowed bool) bool { return natural }
 
 // Score returns score without the verif build tag.
 func Score(kind string, mode int, score uint64) uint64 { return score }
+
+// Forced reports no override without the verif build tag.
+func Forced(name string) (value, forced bool) { return false, false }
